@@ -10,6 +10,7 @@
 -/
 import GM.Proof.BlocksOrdInv
 import GM.Proof.BlocksOrdAtx
+import GM.Proof.BlocksOrdRaw
 
 namespace GM.Blocks
 open GM GM.Text GM.Spec GM.Proof.Reader
@@ -20,6 +21,7 @@ structure Clean (src : Bytes) (L : Int) (s : St) (c : RCur) : Prop where
   ri : RI src s.r c
   pad : PadOK c
   le : L ≤ c.p
+  padl : PadL L c
 
 /-- `Inv` up to some `E` that the reader's line end has reached -/
 def Dirty (src : Bytes) (s : St) : Prop := ∃ E : Int, Inv src E s ∧ Stop src E s
@@ -43,7 +45,7 @@ theorem Stop.congr {src : Bytes} {E : Int} {s s' : St} (h : Stop src E s) (hr : 
   ⟨by rw [hr]; exact h.source, by rw [hr]; exact h.stop0, by rw [hr]; exact h.stop_le, by rw [hr]; exact h.lb⟩
 
 theorem Clean.congr {src : Bytes} {L : Int} {s s' : St} {c : RCur} (h : Clean src L s c) (hi : Inv src L s')
-    (hr : s'.r = s.r) : Clean src L s' c := ⟨hi, by rw [hr]; exact h.ri, h.pad, h.le⟩
+    (hr : s'.r = s.r) : Clean src L s' c := ⟨hi, by rw [hr]; exact h.ri, h.pad, h.le, h.padl⟩
 
 /-! ### a new node at the end of the store -/
 
@@ -66,7 +68,7 @@ theorem Inv.snoc {src : Bytes} {B : Int} {s s' : St} {n : Node} (hi : Inv src B 
     · exact hi.nrb i
     · split
       · exact hb
-      · exact fun _ => ⟨trivial, Below.nil B, fun t ht => by cases ht⟩
+      · exact NodeB.nil B rfl
   · rw [nd_snoc h] at hk ⊢; split
     · next h1 => rw [if_pos h1] at hk; exact hi.pne i hk
     · next h1 =>
@@ -128,9 +130,11 @@ theorem listItemOpen_kids {s s' : St} {parent : Nat} {a : Option Nat × PState}
 
 /-- the node a successful `Open` appends: not raw ⇒ its lines (none, or one inside the rest of the current source
     line) increase and end at or before the end of the line; a Paragraph has its line -/
-theorem open_newNode {src : Bytes} {s s' : St} {c : RCur} (bp : BP) (parent : Nat) {a : Option Nat × PState}
-    (hctx : LineCtx src s c) (e : bpOpen bp parent s = .ok (a, s')) {n : Node} (hn : s'.nodes = s.nodes ++ [n])
-    (hk : n.kind = bp.kind) : NodeB (lineEnd src c.p : Int) n ∧
+theorem open_newNode {src : Bytes} {L : Int} {s s' : St} {c : RCur} (bp : BP) (parent : Nat) {a : Option Nat × PState}
+    (hctx : LineCtx src s c) (hL : L ≤ c.p) (hpl : PadL L c)
+    (e : bpOpen bp parent s = .ok (a, s')) {n : Node} (hn : s'.nodes = s.nodes ++ [n])
+    (hk : n.kind = bp.kind) (hid : a.1.isSome = true) (h0 : ∀ t ∈ n.lines, 0 ≤ t.start) :
+    NodeB (lineEnd src c.p : Int) n ∧
       (n.kind = .paragraph → n.lines ≠ [] ∧ ∀ t ∈ n.lines, NonBlankSeg src t) := by
   have hge := lineEnd_ge src hctx.ri.inRange
   have hltE := lt_lineEnd src hctx.lt
@@ -145,7 +149,15 @@ theorem open_newNode {src : Bytes} {s s' : St} {c : RCur} (bp : BP) (parent : Na
     ⟨trivial, Below.nil _, fun u hu => by cases hu⟩
   have raw : isRaw n.kind = true → NodeB (lineEnd src c.p : Int) n ∧
       (n.kind = .paragraph → n.lines ≠ [] ∧ ∀ t ∈ n.lines, NonBlankSeg src t) :=
-    fun hr => ⟨(fun h => by rw [hr] at h; cases h), (fun hp => by rw [hp] at hr; cases hr)⟩
+    fun hr => ⟨⟨(fun h => by rw [hr] at h; cases h), fun _ =>
+      bpOpen_raw_new bp parent (by rw [← hk]; exact hr) hctx.ri hctx.lt hL hpl e hn hid h0,
+      (fun h => by rw [noLinesKind_of_raw hr] at h; cases h)⟩,
+      (fun hp => by rw [hp] at hr; cases hr)⟩
+  -- a node that is not raw
+  have nonraw : isRaw n.kind = false →
+      (OrdFrom 0 n.lines ∧ Below (lineEnd src c.p : Int) n.lines ∧ ∀ u ∈ n.lines, u.start < u.stop ∧ u.forceNewline = false) →
+      (noLinesKind n.kind = true → n.lines = []) →
+      NodeB (lineEnd src c.p : Int) n := fun hnr h hnl => ⟨fun _ => h, (fun hr => by rw [hnr] at hr; cases hr), hnl⟩
   cases bp
   case setext =>
     have e' : setextOpen parent s = .ok (a, s') := e
@@ -155,7 +167,9 @@ theorem open_newNode {src : Bytes} {s s' : St} {c : RCur} (bp : BP) (parent : Na
       have : n = { kind := .heading, level := lvl, lines := [RCur.seg src c], linesNil := false } := by
         simpa using hn.symm
       subst this
-      exact ⟨fun _ => one _ (Int.le_refl _) (Int.le_refl _) (by show (c.p : Int) < (lineEnd src c.p : Int); omega) rfl,
+      exact ⟨nonraw rfl
+        (one _ (Int.le_refl _) (Int.le_refl _) (by show (c.p : Int) < (lineEnd src c.p : Int); omega) rfl)
+        (fun h => by cases h),
         (fun h => by cases h)⟩
   case thematic =>
     have e' : thematicOpen parent s = .ok (a, s') := e
@@ -164,7 +178,7 @@ theorem open_newNode {src : Bytes} {s s' : St} {c : RCur} (bp : BP) (parent : Na
     · rw [h1.2] at hn
       have : n = { kind := .thematicBreak } := by simpa using hn.symm
       subst this
-      exact ⟨fun _ => none', (fun h => by cases h)⟩
+      exact ⟨nonraw rfl none' (fun _ => rfl), (fun h => by cases h)⟩
   case list =>
     have e' : listOpen parent s = .ok (a, s') := e
     obtain ⟨_, _, _, _, _, _, _, _, _, hnone, hsome⟩ := (listOpen_okl_ri src parent s c hctx.ri).of_ok e'
@@ -175,7 +189,7 @@ theorem open_newNode {src : Bytes} {s s' : St} {c : RCur} (bp : BP) (parent : Na
       rw [hm] at hn
       have : n = m := by simpa using hn.symm
       subst this
-      exact ⟨fun _ => by rw [hl]; exact none', (fun h => by rw [hk] at h; cases h)⟩
+      exact ⟨nonraw (by rw [hk]; rfl) (by rw [hl]; exact none') (fun _ => hl), (fun h => by rw [hk] at h; cases h)⟩
   case listItem =>
     have e' : listItemOpen parent s = .ok (a, s') := e
     by_cases hkl : (nd s parent).kind = .list
@@ -188,7 +202,7 @@ theorem open_newNode {src : Bytes} {s s' : St} {c : RCur} (bp : BP) (parent : Na
         rw [hm] at hn
         have : n = m := by simpa using hn.symm
         subst this
-        exact ⟨fun _ => by rw [hl]; exact none', (fun h => by rw [hk] at h; cases h)⟩
+        exact ⟨nonraw (by rw [hk]; rfl) (by rw [hl]; exact none') (fun _ => hl), (fun h => by rw [hk] at h; cases h)⟩
     · exfalso
       rw [GM.Blocks.L.listItemOpen_notList parent s hkl] at e'
       cases e'
@@ -201,7 +215,7 @@ theorem open_newNode {src : Bytes} {s s' : St} {c : RCur} (bp : BP) (parent : Na
     · rw [hm] at hn
       have : n = m := by simpa using hn.symm
       subst this
-      refine ⟨fun _ => ?_, (fun h => by rw [hk] at h; cases h)⟩
+      refine ⟨nonraw (by rw [hk]; rfl) ?_ (fun h => by rw [hk] at h; cases h), (fun h => by rw [hk] at h; cases h)⟩
       rcases hl with hl | ⟨t, hl, h1, h2, h3, _, h5⟩
       · rw [hl]; exact none'
       · rw [hl]; exact one t (by omega) h3 h2 h5
@@ -220,7 +234,7 @@ theorem open_newNode {src : Bytes} {s s' : St} {c : RCur} (bp : BP) (parent : Na
       subst s'
       have : n = { kind := .blockquote } := by simpa using hn.symm
       subst this
-      exact ⟨fun _ => none', (fun h => by cases h)⟩
+      exact ⟨nonraw rfl none' (fun _ => rfl), (fun h => by cases h)⟩
     · obtain ⟨_, hs⟩ := opure_ok k1
       subst s'
       exfalso; simp at hn
@@ -233,7 +247,8 @@ theorem open_newNode {src : Bytes} {s s' : St} {c : RCur} (bp : BP) (parent : Na
     · rw [hm] at hn
       have : n = m := by simpa using hn.symm
       subst this
-      exact ⟨fun _ => by rw [hl]; exact one seg h2 (by rw [h4]; exact Int.le_refl _) h3 h6,
+      exact ⟨nonraw (by rw [hk]; rfl) (by rw [hl]; exact one seg h2 (by rw [h4]; exact Int.le_refl _) h3 h6)
+          (fun h => by rw [hk] at h; cases h),
         (fun _ => by rw [hl]; exact ⟨by simp, fun u hu => by simp only [List.mem_singleton] at hu; rw [hu]; exact h7⟩)⟩
 
 /-! ### `Open` from a clean state -/
@@ -248,6 +263,9 @@ structure OpenEff (src : Bytes) (L : Int) (bp : BP) (s : St) (c : RCur) (a : Opt
   declined : a.1 = none → Clean src L s' c ∧ s'.nodes = s.nodes
   container : a.2.hasChildren = true → ∃ c', Clean src L s' c' ∧ c.p ≤ c'.p
   node : ∀ id, a.1 = some id → id = s.nodes.length ∧ id < s'.nodes.length ∧ (nd s' id).kind = bp.kind
+  tmp : ∀ t, s'.pc.tmpPara = some t → t < s.nodes.length ∧ (nd s t).kind = .paragraph
+  req : a.2.requirePara = true → bp = .setext
+  snoc : ∀ id, a.1 = some id → ∃ n, s'.nodes = s.nodes ++ [n] ∧ n.kind = bp.kind
 
 theorem open_eff {src : Bytes} {L : Int} {s s' : St} {c : RCur} (bp : BP) (parent : Nat) {a : Option Nat × PState}
     (hc : Clean src L s c) (hlt : c.p < src.length)
@@ -260,14 +278,23 @@ theorem open_eff {src : Bytes} {L : Int} {s s' : St} {c : RCur} (bp : BP) (paren
     rw [e] at this; exact this
   -- the common part, from: reader, stack, new node / no node, `tmpPara`
   have common : ∀ (c' : RCur), RI src s'.r c' → PadOK c' → c.p ≤ c'.p → (a.1 = none → c' = c) →
+      (a.2.hasChildren = true → c' = c ∨ c.p < c'.p) →
       s'.pc.opened = s.pc.opened → s'.pc.blockOffset = s.pc.blockOffset →
       (a.1 = none → s'.nodes = s.nodes) →
       (∀ id, a.1 = some id → id = s.nodes.length ∧ ∃ n, s'.nodes = s.nodes ++ [n] ∧ n.kind = bp.kind ∧ NodeOK src n ∧
         (isRaw bp.kind = false → a.2.hasChildren = true → n.lines = [])) →
       (∀ t, s'.pc.tmpPara = some t → t < s.nodes.length ∧ (nd s t).kind = .paragraph) →
       (a.2.hasChildren = true → a.1.isSome = true ∧ isRaw bp.kind = false) →
+      (a.2.requirePara = true → bp = .setext) →
       OpenEff src L bp s c a s' := by
-    intro c' hri hpad hle hsame ho hbo hnone hsome htmp hkids
+    intro c' hri hpad hle hsame hprg ho hbo hnone hsome htmp hkids hreq
+    have hnewOK : ∀ id, a.1 = some id → ∀ n, s'.nodes = s.nodes ++ [n] → ∀ t ∈ n.lines, 0 ≤ t.start := by
+      intro id ha n hn t ht
+      obtain ⟨_, m, hm, _, hok, _⟩ := hsome id ha
+      rw [hm] at hn
+      have : n = m := by simpa using hn.symm
+      subst this
+      exact (hok.lines t ht).1
     -- `Inv` for every bound `B` that the new node (if any) respects
     have hinv : ∀ B : Int, Inv src B s → (∀ n, s'.nodes = s.nodes ++ [n] → NodeB B n) → Inv src B s' := by
       intro B hiB hnB
@@ -280,8 +307,10 @@ theorem open_eff {src : Bytes} {L : Int} {s s' : St} {c : RCur} (bp : BP) (paren
             rw [ho] at hb; simp only [nd, hn]; exact hiB.kinds b hb, fun m hm => hiB.nodes m (by rw [← hn]; exact hm)⟩
       | some id =>
         obtain ⟨_, n, hn, hk, hok, _⟩ := hsome id ha
-        exact hiB.snoc hn ho htmp (hnB n hn) (open_newNode bp parent hctx e hn hk).2 hok
-    refine ⟨hinv _ hc.invE (fun n hn => ?_), hstop, ho, hbo, fun ha => ?_, fun hch => ?_, fun id ha => ?_⟩
+        exact hiB.snoc hn ho htmp (hnB n hn)
+          (open_newNode bp parent hctx hc.le hc.padl e hn hk (by rw [ha]; rfl) (hnewOK id ha n hn)).2 hok
+    refine ⟨hinv _ hc.invE (fun n hn => ?_), hstop, ho, hbo, fun ha => ?_, fun hch => ?_, fun id ha => ?_, htmp, hreq,
+      fun id ha => by obtain ⟨_, n, hn, hk, _⟩ := hsome id ha; exact ⟨n, hn, hk⟩⟩
     · cases ha : a.1 with
       | none => exfalso; rw [hnone ha] at hn; simp at hn
       | some id =>
@@ -289,13 +318,17 @@ theorem open_eff {src : Bytes} {L : Int} {s s' : St} {c : RCur} (bp : BP) (paren
         rw [hm] at hn
         have : n = m := by simpa using hn.symm
         subst this
-        exact (open_newNode bp parent hctx e hm hk).1
+        exact (open_newNode bp parent hctx hc.le hc.padl e hm hk (by rw [ha]; rfl) (hnewOK id ha n hm)).1
     · have hcc := hsame ha
       subst hcc
-      refine ⟨⟨hinv L hc.inv (fun n hn => ?_), hri, hpad, hc.le⟩, hnone ha⟩
+      refine ⟨⟨hinv L hc.inv (fun n hn => ?_), hri, hpad, hc.le, hc.padl⟩, hnone ha⟩
       exfalso; rw [hnone ha] at hn; simp at hn
     · obtain ⟨hsm, hnr⟩ := hkids hch
-      refine ⟨c', ⟨hinv L hc.inv (fun n hn => ?_), hri, hpad, by have := hc.le; omega⟩, hle⟩
+      have hpl' : PadL L c' := by
+        rcases hprg hch with h1 | h1
+        · rw [h1]; exact hc.padl
+        · intro _; have := hc.le; omega
+      refine ⟨c', ⟨hinv L hc.inv (fun n hn => ?_), hri, hpad, by have := hc.le; omega, hpl'⟩, hle⟩
       cases ha : a.1 with
       | none => rw [ha] at hsm; cases hsm
       | some id =>
@@ -303,7 +336,7 @@ theorem open_eff {src : Bytes} {L : Int} {s s' : St} {c : RCur} (bp : BP) (paren
         rw [hm] at hn
         have : n = m := by simpa using hn.symm
         subst this
-        exact fun _ => by rw [hl hnr hch]; exact ⟨trivial, Below.nil L, fun t ht => by cases ht⟩
+        exact NodeB.nil L (hl hnr hch)
     · obtain ⟨hid, n, hn, hk, _, _⟩ := hsome id ha
       subst hid
       exact ⟨rfl, by rw [hn]; simp, by rw [GM.Blocks.L.nd_append_self hn]; exact hk⟩
@@ -312,8 +345,11 @@ theorem open_eff {src : Bytes} {L : Int} {s s' : St} {c : RCur} (bp : BP) (paren
     have e' : listOpen parent s = .ok (a, s') := e
     obtain ⟨r', hr', hri, ho, hbo, _, htm, _, _, hnone, hsome⟩ := (listOpen_okl_ri src parent s c hc.ri).of_ok e'
     subst hr'
-    refine common c hri hc.pad (Nat.le_refl _) (fun _ => rfl) ho hbo (fun ha => (hnone ha).1) (fun id ha => ?_)
+    refine common c hri hc.pad (Nat.le_refl _) (fun _ => rfl) (fun _ => .inl rfl) ho hbo (fun ha => (hnone ha).1) (fun id ha => ?_)
       (fun t ht => by rw [htm] at ht; exact ⟨tmp_lt (hc.inv.tmpk t ht), hc.inv.tmpk t ht⟩) (fun hch => ?_)
+      (fun hrq => by
+        have := (Ret.h (m := listOpen parent) (Q := fun x => x.2.requirePara = false) (by unfold listOpen; ret)) s a s' e'
+        rw [this] at hrq; cases hrq)
     · obtain ⟨h1, _, _, _, ⟨n, hn, hk, _, hl, _, _, hok⟩, _⟩ := hsome id ha
       exact ⟨h1, n, hn, hk, hok, fun _ _ => hl⟩
     · cases ha : a.1 with
@@ -325,8 +361,12 @@ theorem open_eff {src : Bytes} {L : Int} {s s' : St} {c : RCur} (bp : BP) (paren
     by_cases hkl : (nd s parent).kind = .list
     · obtain ⟨c', hri, hpad, hle, hsame, hprog, ho, hbo, htm, _, hnone, hsome⟩ :=
         (listItemOpen_okl src parent s c hctx (listItemOpen_kids e' hkl)).of_ok e'
-      refine common c' hri hpad hle hsame ho hbo hnone (fun id ha => ?_)
+      refine common c' hri hpad hle hsame (fun hch => .inr (hprog hch)) ho hbo hnone (fun id ha => ?_)
         (fun t ht => by rw [htm] at ht; exact ⟨tmp_lt (hc.inv.tmpk t ht), hc.inv.tmpk t ht⟩) (fun hch => ?_)
+        (fun hrq => by
+          have := (Ret.h (m := listItemOpen parent) (Q := fun x => x.2.requirePara = false)
+            (by unfold listItemOpen; ret)) s a s' e'
+          rw [this] at hrq; cases hrq)
       · obtain ⟨h1, _, n, hn, hk, _, hl, hln, _⟩ := hsome id ha
         exact ⟨h1, n, hn, hk, ⟨(by rw [hl]; exact fun t ht => by cases ht), fun _ => hl⟩, fun _ _ => hl⟩
       · refine ⟨?_, rfl⟩
@@ -340,11 +380,13 @@ theorem open_eff {src : Bytes} {L : Int} {s s' : St} {c : RCur} (bp : BP) (paren
           omega
     · rw [GM.Blocks.L.listItemOpen_notList parent s hkl] at e'
       cases e'
-      exact common c hc.ri hc.pad (Nat.le_refl _) (fun _ => rfl) rfl rfl (fun _ => rfl) (fun id ha => by cases ha)
-        (fun t ht => ⟨tmp_lt (hc.inv.tmpk t ht), hc.inv.tmpk t ht⟩) (fun hch => by cases hch)
+      exact common c hc.ri hc.pad (Nat.le_refl _) (fun _ => rfl) (fun _ => .inl rfl) rfl rfl (fun _ => rfl) (fun id ha => by cases ha)
+        (fun t ht => ⟨tmp_lt (hc.inv.tmpk t ht), hc.inv.tmpk t ht⟩) (fun hch => by cases hch) (fun hrq => by cases hrq)
   · have hO := ((specs_notList src).opn bp ⟨hl1, hl2⟩ parent s c hctx).of_ok e
-    obtain ⟨c', hri, hpad, hle, hsame, _⟩ := hO.ri
-    refine common c' hri hpad hle hsame hO.opened hO.boff hO.noNode (fun id ha => ?_) (fun t ht => ?_) (fun hch => ?_)
+    obtain ⟨c', hri, hpad, hle, hsame, hprog⟩ := hO.ri
+    refine common c' hri hpad hle hsame (fun hch => .inr (hprog hch)) hO.opened hO.boff hO.noNode (fun id ha => ?_)
+      (fun t ht => ?_) (fun hch => ?_)
+      (fun hrq => (hO.req hrq).1)
     · obtain ⟨h1, n, hn, hk, hok, _⟩ := hO.newNode id ha
       refine ⟨h1, n, hn, hk, hok, fun hnr hch => ?_⟩
       -- a non-raw container other than list / list item is the block quote
